@@ -223,6 +223,50 @@ def warm():
     p_C01.model_bin()
 
 
+def trace_of(res):
+    """'ERR(eval_error) <hexreason> [Kind@file:line:col,...]' or '[Kind@line:col,...]' -> [(kind, line, col)]"""
+    if not res.startswith("ERR(eval_error)") or "[" not in res:
+        return None
+    body = res[res.index("[") + 1:res.rindex("]")]
+    out = []
+    for e in body.split(","):
+        if "@" not in e:
+            continue
+        kind, pos = e.split("@", 1)
+        f = pos.split(":")
+        out.append((kind, f[-2], f[-1]))
+    return out
+
+
+def evaluator_trace_tie(c, tier, seed):
+    """evaluator side: the call stack of every eval_error raised by generated programs, node for node (kind, line, col, innermost first),
+    implementation against the Coq evaluator (whose wrapper is the subject of C20_wrapper_appends_the_node)"""
+    import evalcheck as E, gen_prog
+    n = 3000 if tier == "thorough" else 350
+    progs, _ = gen_prog.programs(seed * 77 + 20, n, max_depth=3, error_rate=0.5)
+    progs = [p.replace("; ", ";\n  ", 3) for p in progs]      # a few line breaks so that lines differ
+    for mode in ("opt", "raw"):
+        res = E.run_impl(progs, mode)
+        idx = [i for i in range(len(progs)) if "tree" in res[i]]
+        mod = E.run_model("mech", [res[i]["tree"] for i in idx])
+        for k, i in enumerate(idx):
+            ti = trace_of(res[i]["res"])
+            if ti is None or mod[k] is None:
+                continue
+            parts = mod[k].split(" || ")
+            mres = parts[1] if len(parts) > 1 else ""
+            if mres.startswith("UNSUP") or mres.startswith("FUEL"):
+                continue
+            tm = trace_of(mres)
+            c.dist["call-stacks compared with the evaluator model"] = c.dist.get("call-stacks compared with the evaluator model", 0) + 1
+            if tm is None or ti != tm:
+                # reasons of dispatch errors differ by design; only the stacks are compared
+                c.disagree("eval_error::call_stack (evaluator model vs implementation, %s parser)" % mode, progs[i], ti, tm)
+            else:
+                c.cov["traces_validated_against_impl"] = c.cov.get("traces_validated_against_impl", 0) + 1
+                c.dist["call-stack depth:%s" % (len(ti) if len(ti) < 8 else "8+")] = c.dist.get("call-stack depth:%s" % (len(ti) if len(ti) < 8 else "8+"), 0) + 1
+
+
 def check(tier, seed):
     c = vlib.Check("C20", tier, seed)
     c.cov["rule"] = ("programs = chains of 1..5 script functions defined in separately evaluated chunks under different file names (incl. `__EVAL__` and a name with a space), "
@@ -231,7 +275,8 @@ def check(tier, seed):
                      "call with the wrong number of arguments.  non-trivial = the program ends in the injected eval_error; distinct = distinct program texts")
     c.assumptions = ["ground truth = byte offsets the generator recorded while emitting the text; (line, col) of an offset = 1 + number of LF before it, 1 + bytes since the last LF "
                      "(LexDefs.count_nl / since_nl, evaluated by the extracted specification m_parserspec)",
-                     "the evaluator side (which nodes AST_Node_Impl::eval appends to call_stack) is observed, not modelled, in this check: see the section reserved for the coordinator in Properties_C20.v",
+                     "the evaluator side (which nodes AST_Node_Impl::eval appends to call_stack) is modelled by Eval.with_trace (theorems C20_wrapper_appends_the_node, "
+                     "C20_call_stack_innermost_first, C20_unresolved_identifier_points_at_itself) and tied by comparing whole call stacks on generated failing programs",
                      "node positions of the model are tied to the implementation through the full tree dump (harness/h_parse.cpp, raw mode) on every chunk",
                      "hand port of the grammar layer (ParserDefs.v), see C01"]
     tr = ["OperatorTable", "IntLadder", "Keywords"]
@@ -317,6 +362,7 @@ def check(tier, seed):
         p = progs[k]
         c.sample({"chunks": [(fn, t.decode("latin-1")) for fn, t in p["chunks"]], "expected": [(kk, p["chunks"][ci][0], coords.get((k, ci, o))) for kk, ci, o in p["expected"]],
                   "impl_opt": obs_opt[k][:600]}, limit=3)
+    evaluator_trace_tie(c, tier, seed)
     return c.finish()
 
 
